@@ -40,11 +40,9 @@ func (r *ReferenceStorage) CheckAndSetReference(ref, old *plumbing.Reference) er
 		return r.SetReference(ref)
 	}
 
-	tmp, err := r.temporal.Reference(old.Name())
-	if err == plumbing.ErrReferenceNotFound {
-		tmp, err = r.ReferenceStorer.Reference(old.Name())
-	}
-
+	// Compare against the transaction's own view: a reference removed in
+	// this transaction is absent, whatever the base storage still holds.
+	tmp, err := r.Reference(old.Name())
 	if err != nil {
 		return err
 	}
